@@ -13,6 +13,19 @@
                       else marked := true ; lock pred ; validate (!pred.marked, pred.next == victim) ; unlink ;
                       unlock victim ; unlock pred ; and only THEN read the value of the victim: (value, true)
      Load k           find ; read the flags once ; if fullyLinked && !marked then (later step) read the value
+     LoadOrStore k v  find ;
+        key at node c: read marked c WITHOUT any lock ; if marked search again
+                      else spin until fullyLinked c ; read the value WITHOUT the lock : (value, true)
+        key absent:   exactly the insertion path of Store (lock pred ; validate ; link a new node carrying v ;
+                      fullyLinked := true ; unlock) : (v, false)
+     LoadOrStoreLazy k v   the same, except that the constructor (which returns v) is called between the successful
+                      validation and the creation of the node, still holding the lock of pred (step OCall). The
+                      program counters of both operations carry the flag [lz] (lazy variant) and a GHOST COUNTER
+                      [n] = how often the constructor has run in this operation; it is reported in the history.
+     Delete k         EXACTLY the program counters of LoadAndDelete, including the final RRead step, whose value is
+                      discarded (result = the bool). The Go code of Delete has no such final read: in the model it
+                      is a stutter step (a read: it cannot influence any other thread).
+   The retry "level > highestLevel" of the insertion paths is an upper-lane matter and is not modelled.
 
    One [step rep s t] executes the next atomic action of thread t: one shared-memory access per step (the key of a
    node is immutable and is read together with the next pointer that led to it); a lock acquisition that is not
@@ -28,7 +41,8 @@ Local Open Scope Z_scope.
 Record nd := { key : Z; value : Z; next : option nat; marked : bool; linked : bool; lock : option nat }.
 Definition heap := list nd.          (* index 0 is the header (its key and value are never read) *)
 
-Inductive opk := MStore (k v : Z) | MLoad (k : Z) | MLoadAndDelete (k : Z).
+Inductive opk := MStore (k v : Z) | MLoad (k : Z) | MLoadAndDelete (k : Z)
+| MLoadOrStore (k v : Z) | MLoadOrStoreLazy (k v : Z) | MDelete (k : Z).
 
 Inductive pc :=
 | Idle
@@ -65,7 +79,18 @@ Inductive pc :=
 (* Load *)
 | LFind (k : Z) (pred : nat)
 | LFlags (k : Z) (c : nat)
-| LRead (c : nat).
+| LRead (c : nat)
+(* LoadOrStore (lz = false) / LoadOrStoreLazy (lz = true); n = how often the constructor has run (ghost) *)
+| OFind (k v : Z) (lz : bool) (n : nat) (pred : nat)
+| OChkM (k v : Z) (lz : bool) (n : nat) (c : nat)           (* one unlocked read of marked *)
+| OWaitL (k v : Z) (lz : bool) (n : nat) (c : nat)
+| ORead (k v : Z) (lz : bool) (n : nat) (c : nat)           (* unlocked read of the value: (value, true) *)
+| OLock (k v : Z) (lz : bool) (n : nat) (pred : nat) (succ : option nat)
+| OValid (k v : Z) (lz : bool) (n : nat) (pred : nat) (succ : option nat)
+| OCall (k v : Z) (lz : bool) (n : nat) (pred : nat) (succ : option nat)     (* the constructor runs *)
+| OLink (k v : Z) (lz : bool) (n : nat) (pred : nat) (succ : option nat)
+| OFull (k v : Z) (lz : bool) (n : nat) (pred nn : nat)
+| OUnlock (k v : Z) (lz : bool) (n : nat) (pred : nat) (ok : bool).  (* ok = false: validation failed, search again *)
 
 Record thr := { todo : list opk; at_pc : pc }.
 Record state := { hp : heap; ths : list thr }.
@@ -171,10 +196,41 @@ Definition action (rep : bool) (h : heap) (t : nat) (p : pc) : heap * pc :=
       end
   | LFlags k c => if linked (get h c) && negb (marked (get h c)) then (h, LRead c) else (h, Done 0 false)
   | LRead c => (h, Done (value (get h c)) true)
+  | OFind k v lz n pred =>
+      match next (get h pred) with
+      | None => (h, OLock k v lz n pred None)
+      | Some c =>
+          let kc := key (get h c) in
+          if kc <? k then (h, OFind k v lz n c)
+          else if kc =? k then (h, OChkM k v lz n c)
+          else (h, OLock k v lz n pred (Some c))
+      end
+  | OChkM k v lz n c => if marked (get h c) then (h, OFind k v lz n 0) else (h, OWaitL k v lz n c)
+  | OWaitL k v lz n c => if linked (get h c) then (h, ORead k v lz n c) else (h, p)
+  | ORead k v lz n c => (h, Done (value (get h c)) true)
+  | OLock k v lz n pred succ =>
+      match acquire h t pred with Some h' => (h', OValid k v lz n pred succ) | None => (h, p) end
+  | OValid k v lz n pred succ =>
+      let ok := negb (marked (get h pred))
+                && match succ with Some c => negb (marked (get h c)) | None => true end
+                && opt_nat_eqb (next (get h pred)) succ in
+      if ok then (h, if lz then OCall k v lz n pred succ else OLink k v lz n pred succ)
+      else (h, OUnlock k v lz n pred false)
+  | OCall k v lz n pred succ => (h, OLink k v lz (Datatypes.S n) pred succ)
+  | OLink k v lz n pred succ =>
+      let nn := length h in
+      let h1 := h ++ [{| key := k; value := v; next := succ; marked := false; linked := false; lock := None |}] in
+      (setn h1 pred (set_next (Some nn)), OFull k v lz n pred nn)
+  | OFull k v lz n pred nn => (setn h nn set_linked, OUnlock k v lz n pred true)
+  | OUnlock k v lz n pred ok =>
+      (setn h pred (set_lock None), if ok then Done v false else OFind k v lz n 0)
   end.
 
 Definition start (o : opk) : pc :=
-  match o with MStore k v => SFind k v 0 | MLoadAndDelete k => RFind k 0 None | MLoad k => LFind k 0 end.
+  match o with
+  | MStore k v => SFind k v 0 | MLoadAndDelete k | MDelete k => RFind k 0 None | MLoad k => LFind k 0
+  | MLoadOrStore k v => OFind k v false 0 0 | MLoadOrStoreLazy k v => OFind k v true 0 0
+  end.
 
 Definition resting (p : pc) : bool := match p with Idle | Done _ _ => true | _ => false end.
 
@@ -213,10 +269,28 @@ Definition call_of (o : opk) : Spec.mop :=
   | MStore k v => Spec.Store k v 0
   | MLoad k => Spec.Load k
   | MLoadAndDelete k => Spec.LoadAndDelete k
+  | MLoadOrStore k v => Spec.LoadOrStore k v 0
+  | MLoadOrStoreLazy k v => Spec.LoadOrStoreLazy k v 0
+  | MDelete k => Spec.Delete k
   end.
 
-Definition ret_of (o : opk) (v : Z) (ok : bool) : Spec.mres :=
-  match o with MStore _ _ => Spec.RUnit | _ => Spec.RGet v ok end.
+(* the ghost counter of constructor calls carried by a program counter of LoadOrStore(Lazy) *)
+Definition calls_of (p : pc) : nat :=
+  match p with
+  | OFind _ _ _ n _ | OChkM _ _ _ n _ | OWaitL _ _ _ n _ | ORead _ _ _ n _ | OLock _ _ _ n _ _ | OValid _ _ _ n _ _
+  | OCall _ _ _ n _ _ | OLink _ _ _ n _ _ | OFull _ _ _ n _ _ | OUnlock _ _ _ n _ _ => n
+  | _ => O
+  end.
+
+(* calls = the ghost counter of the program counter the thread had before its completing step *)
+Definition ret_of (o : opk) (calls : nat) (v : Z) (ok : bool) : Spec.mres :=
+  match o with
+  | MStore _ _ => Spec.RUnit
+  | MLoad _ | MLoadAndDelete _ => Spec.RGet v ok
+  | MLoadOrStore _ _ => Spec.RLoS v ok
+  | MLoadOrStoreLazy _ _ => Spec.RLazy v ok calls
+  | MDelete _ => Spec.RBool ok
+  end.
 
 Record istate := {
   ist : state;
@@ -243,7 +317,7 @@ Definition istep (rep : bool) (x : istate) (t : nat) : istate :=
     else match pc_of s' t, nth t pend' None with
          | Done v ok, Some (o, i) =>
              hlog x ++ [ {| Hist.inv := N.of_nat i; Hist.resp := N.of_nat (clock x);
-                            Hist.call := call_of o; Hist.ret := ret_of o v ok |} ]
+                            Hist.call := call_of o; Hist.ret := ret_of o (calls_of (pc_of s t)) v ok |} ]
          | _, _ => hlog x
          end in
   {| ist := s'; clock := Datatypes.S (clock x); pend := pend'; hlog := hlog' |}.
